@@ -622,6 +622,11 @@ def r6_effects(ctx, A):
         if m.name != "async_write_from_at":
             ctx.check("R6-async-siblings", "FuseDevWriter::%s/appends-each-slice" % m.name, ext == slices and bool(slices),
                       "FuseDevWriter::%s appends %s to the reply buffer; its byte-slice arguments are %s (each once, in order)" % (m.name, ext, slices), loc=m.loc())
+        if m.name in ("async_write", "async_write2", "async_write3"):
+            rt = vf.render(v.ret(), m, short=True, vfx=v)
+            tot = {1: "impl [T]::len(data)", 2: "Add(impl [T]::len(data), impl [T]::len(data2))", 3: "Add(Add(impl [T]::len(data), impl [T]::len(data2)), impl [T]::len(data3))"}[len(slices) or 1]
+            ctx.check("R6-async-siblings", "FuseDevWriter::%s/returns-total" % m.name, ("=> Ok(%s)" % tot) in rt or rt == "Ok(%s)" % tot,
+                      "FuseDevWriter::%s (buffered) must return the total length of its slices, Ok(%s)" % (m.name, tot), loc=m.loc())
         raw = [c for f in fam for c in live_calls(f) if c.name in ("pwrite", "pwritev") and (c.fn or "").startswith("nix::")]
         rd = [c for f in fam for c in live_calls(f) if c.name in ("async_read_at_volatile", "async_read_vectored_at_volatile")]
         acc = [c for f in fam for c in live_calls(f) if c.name == "account_written"]
